@@ -28,6 +28,7 @@ def main(tier):
     chk.run("R-FMTORDER", F.fmtorder, r, floor=150)
     chk.run("R-FMTINDENT", F.fmtindent, r, floor=14)
     chk.run("R-FMTWIDTH", F.fmtwidth, r, floor=1)
+    chk.run("R-FMTBLANK", F.fmtblank, r, floor=4)
     chk.run("R-ADJACENCY", A.adjacency, r, floor=300)
     chk.run("R-FMTGUARD", F.fmtguard, r, floor=4)
     chk.run("R-FMTSELFCHECK", F.sanity_check_shape, r, floor=3)
